@@ -13,11 +13,18 @@ type c18Drop struct{ v any }
 
 func (d c18Drop) ToLiquid() any { return d.v }
 
-const c18IntReps = 11
+const c18IntReps = 13
 
 // c18Int realises the integer n (0..99) in the k-th numeric representation.
+type c18MyInt int
+type c18MyUint8 uint8
+
 func c18Int(n int, k int) any {
 	switch k {
+	case 11:
+		return c18MyInt(n) // named integer types
+	case 12:
+		return c18MyUint8(n)
 	case 0:
 		return n
 	case 1:
